@@ -166,7 +166,7 @@ def main():
             fl = list(vflags)
             if fn.startswith("nosan_"):
                 fl = [f for f in fl if not f.startswith("-fsanitize") and not f.startswith("-fno-sanitize")]
-            cl = [cxx, "-std=c++17", "-c", "-o", obj, p] + incs + fl + ["-DMATRIXSSL_VERIF", "-DVSIM_VARIANT_" + variant.upper(), "-Wall", "-Wno-unused-function", "-Wno-unused-variable", "-MMD", "-MF", obj[:-3] + ".d"]
+            cl = [cxx, "-std=c++17", "-c", "-o", obj, p] + incs + fl + ["-DMATRIXSSL_VERIF", "-DVSIM_VARIANT_" + variant.upper(), "-Wall", "-Wno-unused-function", "-Wno-unused-variable", "-MMD", "-MF", obj[:-2] + ".d"]
         else:
             continue
         simobjs.append(obj)
